@@ -245,7 +245,8 @@ def h_getattr_init(eng, obj, name, st, node):
 INIT_FIELDS = {'_rate': 'obj', '_inputs': 'obj', 'operator': 'obj', '_operator': 'obj',
                '_special_index': 'obj'}
 for cls, params in (('MulAdd', ['input', 'mul', 'add']),):
-    contract(F, cls + '._init_ugen', props=('C01',),
+    # C03: every unit of an expanded madd gets the rate of ITS OWN inputs, like the single call
+    contract(F, cls + '._init_ugen', props=('C01', 'C03'),
              params=dict([('self', 'self')] + [(p, OPND) for p in params]),
              ensures=[('rate-is-the-highest-among-its-own-inputs', init_rate_post(params))],
              fields={cls: INIT_FIELDS},
